@@ -1136,7 +1136,7 @@ example : ∃ w L, FinalB (.int 9) [.subscribe 0, .complete, .subscribe 1, .unsu
   exact ⟨w, L, ⟨n0, hrun⟩, hrel⟩
 
 /-
-NOT DONE — AsyncSubject (`asyncObservable sj = stdOp (kTakeLast 1) sj.observable`, `SubjM` kind `.async`).
+NOT DONE HERE — AsyncSubject: see C10RefAsync.lean (the subject was repaired, F17; it no longer goes through `stdOp`).
 Wanted:   theorem async_refines (cs : List Call) (hwf : wfFrom 0 cs = true) :
             ∃ w, FinalA cs w ∧ AgreesA w (SubjM.run .async cs)
 Missing:  a per-subscription representation of the StreamController that `stdOp` allocates for every subscriber
